@@ -99,6 +99,21 @@ var c11Model = porcupine.Model{
 				return out.Err == model.ErrCondFailed, s
 			}
 			return out.Err == "", c11State{}
+		case "CREATE": // table catalogue: the partition key is "table:<name>"
+			if s.Exists {
+				return out.Err == model.ErrInUse, s
+			}
+			return out.Err == "", c11State{Exists: true}
+		case "DROP":
+			if !s.Exists {
+				return out.Err == model.ErrNotFound, s
+			}
+			return out.Err == "", c11State{}
+		case "DESC":
+			if !s.Exists {
+				return out.Err == model.ErrNotFound, s
+			}
+			return out.Err == "", s
 		}
 		return false, s
 	},
@@ -134,6 +149,14 @@ func c11Decode(op model.Op) (c11In, bool) {
 		return n
 	}
 	switch {
+	case op.Kind == "CreateTable" && op.Schema != nil && op.Schema.Table != "tbl":
+		return c11In{"CREATE", "table:" + op.Schema.Table, 0}, true
+	case op.Kind == "DeleteTable" && op.Table != "tbl":
+		return c11In{"DROP", "table:" + op.Table, 0}, true
+	case op.Kind == "DescribeTable" && op.Table != "tbl":
+		return c11In{"DESC", "table:" + op.Table, 0}, true
+	case op.Table != "tbl" && op.Kind != "CreateTable":
+		return c11In{}, false
 	case op.Kind == "Put" && op.Cond == "":
 		return c11In{"PUT", op.Item["pk"].S, num(op.Item)}, true
 	case op.Kind == "Put":
@@ -256,6 +279,13 @@ func runC11(c c11Case, info *c11Info) *failure {
 				keys[op.Input.(c11In).Key] = true
 			}
 			for k := range keys {
+				if strings.HasPrefix(k, "table:") {
+					call := atomic.AddInt64(&clock, 1)
+					r := d.Apply(model.Op{Kind: "DescribeTable", Table: strings.TrimPrefix(k, "table:")})
+					ret := atomic.AddInt64(&clock, 1)
+					history = append(history, porcupine.Operation{ClientId: len(c.Threads), Input: c11In{Kind: "DESC", Key: k}, Call: call, Output: c11Output(r), Return: ret})
+					continue
+				}
 				call := atomic.AddInt64(&clock, 1)
 				r := d.Apply(c11DataOp(c11In{Kind: "GET", Key: k}))
 				ret := atomic.AddInt64(&clock, 1)
@@ -307,7 +337,7 @@ func init() {
 	}
 }
 
-const ruleC11 = "rapid generates concurrent programs (sequential setup + 2-8 goroutines x 2-10 operations released from a barrier), each executed repeatedly on a fresh SDK v1 or v2 client in a binary built with the Go race detector (GORACE=halt_on_error), two thirds of them with a generated pause plan (the n-th passage through a verif yield point inside the table operations sleeps 1.5 ms while the client lock is held, which puts the mutex into hand-off mode so that a lock dropped and re-taken inside an operation is interleaved): 'data' programs over a tiny key space of counter items (PutItem, conditional PutItem attribute_not_exists, UpdateItem ADD 1, GetItem, DeleteItem ALL_OLD, conditional DeleteItem) whose invoke/return-stamped histories, completed by final reads, are checked for linearizability with porcupine against the sequential counter-item specification (this subsumes 'N concurrent ADD-1 yield N' and 'exactly one of N racing conditional puts succeeds', both also generated as dedicated programs); 'mixed' programs over every client method (CreateTable / DeleteTable / UpdateTable / DescribeTable, batch calls, TransactWriteItems, Query, Scan, ClearTable, failure toggling, data operations). Oracles: race detector report (the program being executed is recorded before it starts), runtime panic or fatal error, deadlock watchdog (goroutine parked in Mutex.Lock inside minidyn), linearizability, SortedKeys/Data consistency afterwards. Non-trivial = program in which >= 2 goroutines touch the same key or the table catalogue; distinct = hash of the program."
+const ruleC11 = "rapid generates concurrent programs (sequential setup + 2-8 goroutines x 2-10 operations released from a barrier), each executed repeatedly on a fresh SDK v1 or v2 client in a binary built with the Go race detector (GORACE=halt_on_error), two thirds of them with a generated pause plan (the n-th passage through a verif yield point inside the table operations sleeps 1.5 ms while the client lock is held, which puts the mutex into hand-off mode so that a lock dropped and re-taken inside an operation is interleaved): 'data' programs over a tiny key space of counter items (PutItem, conditional PutItem attribute_not_exists, UpdateItem ADD 1, GetItem, DeleteItem ALL_OLD, conditional DeleteItem) and 'catalogue' programs (CreateTable / DeleteTable / DescribeTable on two names, N racing CreateTable on one fresh name) whose invoke/return-stamped histories, completed by final reads, are checked for linearizability with porcupine against the sequential counter-item / table-catalogue specification (this subsumes 'N concurrent ADD-1 yield N' and 'exactly one of N racing conditional puts succeeds', both also generated as dedicated programs); 'mixed' programs over every client method (CreateTable / DeleteTable / UpdateTable / DescribeTable, batch calls, TransactWriteItems, Query, Scan, ClearTable, failure toggling, data operations). Oracles: race detector report (the program being executed is recorded before it starts), runtime panic or fatal error, deadlock watchdog (goroutine parked in Mutex.Lock inside minidyn), linearizability, SortedKeys/Data consistency afterwards. Non-trivial = program in which >= 2 goroutines touch the same key or the table catalogue; distinct = hash of the program."
 
 // TestC11 decides property C11.
 func TestC11(t *testing.T) {
@@ -319,8 +349,11 @@ func TestC11(t *testing.T) {
 	}
 	rapid.Check(t, func(rt *rapid.T) {
 		c := c11Case{Client: rapid.SampledFrom([]string{"v1", "v2"}).Draw(rt, "client"), Runs: runs}
-		c.Flavour = rapid.SampledFrom([]string{"data", "data", "mixed", "counter", "racing-puts", "racing-deletes"}).Draw(rt, "flavour")
-		c.Setup = []model.Op{{Kind: "CreateTable", Schema: sTable("tbl", false)}}
+		c.Flavour = rapid.SampledFrom([]string{"data", "data", "mixed", "mixed", "counter", "racing-puts", "racing-deletes", "catalogue", "racing-creates"}).Draw(rt, "flavour")
+		mainSchema := sTable("tbl", false)
+		mainSchema.Attrs["g1"] = "S"
+		mainSchema.Indexes = []model.IndexSchema{{Name: "gidx", Hash: "g1", Global: true, NoThroughput: true}}
+		c.Setup = []model.Op{{Kind: "CreateTable", Schema: mainSchema}}
 		keys := []string{"k1", "k2", "k3"}
 		nThreads := rapid.IntRange(2, 8).Draw(rt, "threads")
 		shared := false
@@ -329,6 +362,31 @@ func TestC11(t *testing.T) {
 			c.Flavour = "data"
 			for i := 0; i < nThreads; i++ {
 				c.Threads = append(c.Threads, []model.Op{c11DataOp(c11In{Kind: "ADD", Key: "k1"}), c11DataOp(c11In{Kind: "ADD", Key: "k1"})})
+			}
+			shared = true
+		case "racing-creates":
+			// exactly one of N racing CreateTable calls on a fresh name succeeds
+			c.Flavour = "data"
+			for i := 0; i < nThreads; i++ {
+				c.Threads = append(c.Threads, []model.Op{{Kind: "CreateTable", Schema: sTable("fresh", false)}, {Kind: "DescribeTable", Table: "fresh"}})
+			}
+			shared = true
+		case "catalogue":
+			// table management calls on two names: the catalogue must be linearizable
+			c.Flavour = "data"
+			for i := 0; i < nThreads; i++ {
+				n := rapid.IntRange(2, 6).Draw(rt, "opsPerThread")
+				var ops []model.Op
+				for j := 0; j < n; j++ {
+					name := rapid.SampledFrom([]string{"cat1", "cat2"}).Draw(rt, "tableName")
+					ops = append(ops, rapid.SampledFrom([]model.Op{
+						{Kind: "CreateTable", Schema: sTable(name, false)},
+						{Kind: "CreateTable", Schema: sTable(name, true)},
+						{Kind: "DeleteTable", Table: name},
+						{Kind: "DescribeTable", Table: name},
+					}).Draw(rt, "catalogueOp"))
+				}
+				c.Threads = append(c.Threads, ops)
 			}
 			shared = true
 		case "racing-puts":
@@ -363,7 +421,10 @@ func TestC11(t *testing.T) {
 				}
 			}
 		default: // mixed
-			ix := &model.IndexSchema{Name: "late1", Hash: "g1", Global: true}
+			for _, k := range keys {
+				c.Setup = append(c.Setup, model.Op{Kind: "Put", Table: "tbl", Item: model.Item{"pk": model.Str(k), "c": model.Num("1"), "g1": model.Str("g")}})
+			}
+			ix := &model.IndexSchema{Name: "late1", Hash: "g2", Global: true}
 			for i := 0; i < nThreads; i++ {
 				n := rapid.IntRange(2, 8).Draw(rt, "opsPerThread")
 				var ops []model.Op
@@ -376,12 +437,14 @@ func TestC11(t *testing.T) {
 						c11DataOp(c11In{Kind: "GET", Key: k}),
 						c11DataOp(c11In{Kind: "DEL", Key: k}),
 						{Kind: "Scan", Table: "tbl"},
+						{Kind: "Scan", Table: "tbl", Index: "gidx"},
+						{Kind: "Query", Table: "tbl", Index: "gidx", KeyCond: "g1 = :g", Values: map[string]model.AV{":g": model.Str("g")}},
 						{Kind: "Query", Table: "tbl", KeyCond: "pk = :h", Values: map[string]model.AV{":h": model.Str(k)}},
 						{Kind: "DescribeTable", Table: "tbl"},
 						{Kind: "CreateTable", Schema: sTable("other", false)},
 						{Kind: "DeleteTable", Table: "other"},
 						{Kind: "Put", Table: "other", Item: it},
-						{Kind: "AddIndex", Table: "tbl", IndexSchema: ix, IndexAttrs: map[string]string{"g1": "S"}},
+						{Kind: "AddIndex", Table: "tbl", IndexSchema: ix, IndexAttrs: map[string]string{"g2": "S"}},
 						{Kind: "DeleteIndex", Table: "tbl", Index: "late1"},
 						{Kind: "ClearTable", Table: "tbl"},
 						{Kind: "BatchWrite", Batch: []model.TableBatch{{Table: "tbl", Reqs: []model.WriteReq{{Put: it}, {Delete: c11Key("k3")}}}}},
